@@ -43,6 +43,7 @@ pub fn value_alphabet() -> Vec<(Value, Form)> {
         // empty containers, alone and nested
         (json!({}), Form::TupleStr),
         (json!([{}, [], {"e": {}, "l": [], "n": null}]), Form::TupleStr),
+        (Value::Null, Form::Native(12)), // reads mutable state when serialised; the state changes right after set_claim
     ]
 }
 
